@@ -65,6 +65,16 @@ CHECKS = {
             "Trusted: the model in checks/c11.py (rule truths are known by construction). Not constrained: whether "
             "SCAN_FINISHED follows an abort; abort answered to module messages.",
             "DESIGN.md section 2, C11"),
+    "C08": ("exploration",
+            "differential oracle between executions (original vs loaded rules, before vs after save) and byte equality of saved images across processes",
+            "Generated rule sets covering every construct that stores a pointer in the arena are saved through a "
+            "chunked stream and a file and loaded back; verdicts, match lists, callback traces, tags, metas and "
+            "externals are compared between original and loaded rules, the original is rescanned after saving and the "
+            "loaded rules after the original was destroyed; images from three saves, a re-save, and a second process "
+            "with another heap fill byte / environment / arena capacity must be byte-identical. All under ASan+UBSan+LSan.",
+            "Trusted: harness recording; ASan's malloc_fill_byte as the source of differing uninitialised bytes. One "
+            "known finding (save after a rules-level string define aborts) is exercised by dedicated cases.",
+            "DESIGN.md section 2, C08"),
 }
 
 NOT_YET = "check not built yet in this round (planned in DESIGN.md section 2); nothing is claimed for it"
